@@ -120,10 +120,17 @@ func goNums(v interface{}, seed uint64) interface{} {
 
 // ---- typed documents (reflection paths of the interpreter) ----
 
+// TTag is embedded in TObj: its fields are promoted (index paths of length 2).
+type TTag struct {
+	Tag string
+	W   float64
+}
+
 type TObj struct {
 	K float64
 	S string
 	T []int
+	TTag
 }
 
 type TDoc struct {
@@ -148,9 +155,9 @@ func buildTyped(name string, seed uint64) interface{} {
 		return &TDoc{
 			Nums:  []float64{3, 1, 2},
 			Strs:  []string{"b", "a"},
-			Objs:  []TObj{{3, "c", []int{1}}, {1, "a", []int{2, 3}}, {2, "b", nil}},
-			PObjs: []*TObj{{2, "y", nil}, {1, "x", []int{9}}},
-			P:     &TObj{7, "p", []int{4, 5}},
+			Objs:  []TObj{{3, "c", []int{1}, TTag{"t" + "c", 1}}, {1, "a", []int{2, 3}, TTag{"t" + "a", 1}}, {2, "b", nil, TTag{"t" + "b", 1}}},
+			PObjs: []*TObj{{2, "y", nil, TTag{"t" + "y", 1}}, {1, "x", []int{9}, TTag{"t" + "x", 1}}},
+			P:     &TObj{7, "p", []int{4, 5}, TTag{"t" + "p", 1}},
 			M:     map[string]interface{}{"a": []interface{}{3.0, 1.0, 2.0}, "b": map[string]interface{}{"c": 1.0}},
 			Grid:  [][]int{{1, 2}, {}, {3}},
 			Any:   []interface{}{map[string]interface{}{"k": 2.0}, map[string]interface{}{"k": 1.0}, map[string]interface{}{"k": 3.0}},
@@ -184,9 +191,9 @@ func buildTyped(name string, seed uint64) interface{} {
 		return &TDoc{N: "invoice", S: 42, Objs: []TObj{{[]int{7}, 1.5, "kk"}, {nil, 2.5, "ll"}}, P: &TObj{[]int{1}, 9, "pk"}, Nums: []string{"x", "y"}, Strs: []float64{3, 1, 2},
 			PObjs: []*TObj{{[]int{5}, 3, "q"}}}
 	case "tslice":
-		return []TObj{{3, "c", []int{1}}, {1, "a", nil}, {2, "b", []int{5, 4}}}
+		return []TObj{{3, "c", []int{1}, TTag{"t" + "c", 1}}, {1, "a", nil, TTag{"t" + "a", 1}}, {2, "b", []int{5, 4}, TTag{"t" + "b", 1}}}
 	case "tmap":
-		return map[string]interface{}{"objs": []TObj{{2, "b", nil}, {1, "a", nil}}, "ptr": mk(), "nums": []float64{2, 1}, "gen": []interface{}{3.0, 1.0, 2.0}}
+		return map[string]interface{}{"objs": []TObj{{2, "b", nil, TTag{"t" + "b", 1}}, {1, "a", nil, TTag{"t" + "a", 1}}}, "ptr": mk(), "nums": []float64{2, 1}, "gen": []interface{}{3.0, 1.0, 2.0}}
 	}
 	panic("unknown typed doc " + name)
 }
@@ -208,7 +215,7 @@ func mkTDocSeeded(seed uint64) *TDoc {
 			return 17 + int(next()%24)
 		}
 	}
-	d := &TDoc{S: "héllo", N: -3.5, P: &TObj{7, "p", []int{4, 5}}}
+	d := &TDoc{S: "héllo", N: -3.5, P: &TObj{7, "p", []int{4, 5}, TTag{"t" + "p", 1}}}
 	d.Nums = make([]float64, n())
 	for i := range d.Nums {
 		d.Nums[i] = float64(next() % 50)
@@ -219,11 +226,11 @@ func mkTDocSeeded(seed uint64) *TDoc {
 	}
 	d.Objs = make([]TObj, n())
 	for i := range d.Objs {
-		d.Objs[i] = TObj{float64(next() % 30), string(rune('a' + next()%20)), []int{int(next() % 9)}}
+		d.Objs[i] = TObj{float64(next() % 30), string(rune('a' + next()%20)), []int{int(next() % 9)}, TTag{string(rune('p' + next()%5)), float64(next() % 7)}}
 	}
 	d.PObjs = make([]*TObj, n()%8)
 	for i := range d.PObjs {
-		d.PObjs[i] = &TObj{float64(next() % 30), string(rune('a' + next()%20)), nil}
+		d.PObjs[i] = &TObj{float64(next() % 30), string(rune('a' + next()%20)), nil, TTag{"pt", 2}}
 	}
 	d.Grid = make([][]int, n()%7)
 	for i := range d.Grid {
@@ -265,6 +272,7 @@ var typedExprs = []string{
 	"[*].k", "[?k > `1`]", "[0].t", "[::-1]", "[]", "@[0].s", "length(@)",
 	"grid[]", "grid[][]", "grid[0]", "grid[*][0]", "grid[?@]", "to_number(nums)", "type(nums)", "type(p)", "!p", "!nilP", "!nums", "!objs", "pObjs[?@]", "pObjs[?k > `1`].s", "objs[?abs(s)]", "objs[?k].abs(s)",
 	"objs[*].abs(s)", "nums[?@ > `1`]", "strs[?@ == 'a']", "p || nilP", "nilP || p", "nilP && p", "length(objs)", "reverse(objs)", "sort_by(objs, &k)", "max_by(objs, &k)", "map(&k, objs)", "to_array(nums)", "not_null(nilP, nums)",
+	"objs[*].tag", "objs[0].tag", "p.tag", "p.w", "objs[*].w", "pObjs[*].tag", "objs[?w > `0`].tag", "sort_by(objs, &w)", "objs[*].tTag", "objs[*].tTag.tag", "p.tTag", "[*].tag", "[0].w", "ptr.p.tag", "objs[*].[k, tag]", "objs[*].{t: tag, k: k}",
 	"ports == `[80, 443]`", "nums == nums", "objs[0] == objs[1]", "nums[0] == `3`", "nums != strs", "[?k == `2`]", "any[?k == `2`]", "m.a == `[3,1,2]`", "any == any", "n == `-3.5`", "objs[?k >= `2`].s",
 	"objs[*].k", "ptr.p.s", "ptr.objs[*].s", "nums[0]", "gen | sort_by(@, &@)", "sort_by(gen, &@)", "reverse(gen)", "sort(gen)", "reverse(nums)", "to_string(ptr.p)",
 }
